@@ -117,6 +117,7 @@ class ReplayTracker:
         self.pending_susp = None  # helper frame whose rewind has not been taken yet (_start_suspender runs hooks first)
         self.pause_calls = {}
         self.bad = []
+        self.bad_at = None        # index in msgs of the message at which the violation was detected
         self.windows = []         # (kind, expected length) of every replay window that was opened
         self.cleared = False      # a clear_checkpoint was executed in this call
         self.stopped = None
@@ -207,10 +208,12 @@ class ReplayTracker:
                     self.bad.append(self.classify_extra(i, mid, cmd))
                 else:
                     self.bad.append((f"replay-missing-message:{exp_cmd}", f"after {top.get('src')} the engine must re-execute {exp_cmd!r} (msg #{exp_mid}) next (remaining replay {rest}) but executes {cmd!r} (msg #{mid}) at position {i}"))
+                self.bad_at = i
                 raise Stop("violation")
         else:
             if mid in self.seen:
                 self.bad.append(self.classify_extra(i, mid, cmd))
+                self.bad_at = i
                 raise Stop("violation")
         # the documented cache rule
         replayed = mid in self.seen
@@ -290,12 +293,10 @@ def replay_devices(rng):
         "d2": {"kind": "det", "modes": {}, "offset": 2},
         "s1": {"kind": "sig"},
     }
-    if devs["m1"]["pausable"] and rng.random() < 0.5:
+    if devs["m1"]["pausable"] and rng.random() < 0.75:
         devs["m1"]["modes"]["pause"] = [rng.choice(["done", "noreplay", "noreplay"]) for _ in range(rng.choice([1, 2, 3]))]
     if rng.random() < 0.15:
         devs["m1"]["modes"]["set"] = [rng.choice(["done", "pending"]) for _ in range(3)]
-    if rng.random() < 0.12:
-        devs["d2"]["modes"]["stage"] = ["raise"]
     if rng.random() < 0.08:
         devs["d1"]["modes"]["read"] = [rng.choice(["done", "raise"]) for _ in range(3)]
     return devs
@@ -387,12 +388,26 @@ def replay_plan(rng, clear_p=0.12):
         body += extras() if rng.random() < 0.3 else []
     unst = [M("unstage", d) for d in reversed(staged)]
     r = rng.random()
-    if r < 0.35 and unst:
-        return {"k": "try", "body": seq(*body), "handler": None, "fin": seq(*unst)}
+    if r < 0.25 and unst:
+        return {"k": "try", "body": seq(*body), "handler": None, "fin": seq(*unst)}, {}
     if r < 0.5:
-        # a failing command inside try/except: the plan survives and goes on
-        return seq({"k": "try", "body": seq(M("null"), M("stage", "d2"), M("null")), "handler": seq(M("null")), "fin": None}, *(body + unst))
-    return seq(*(body + unst))
+        # an implicit-checkpoint command that FAILS inside try/except: the plan survives and goes on; a failed
+        # command is not a checkpoint, and a non-replayable command must not be replayed even then
+        kind = rng.choice(["stage", "unstage", "close_run", "unmonitor"])
+        need = {"_early": True}
+        if kind == "stage":
+            x, need = M("stage", "d2"), {"d2": {"stage": ["raise"]}, "_early": True}
+        elif kind == "unstage":
+            x, need = M("unstage", "d2"), {"d2": {"unstage": ["raise"]}, "_early": True}
+        elif kind == "close_run":
+            x = M("close_run")
+        else:
+            x = M("unmonitor", "s1")
+        pre = [M("null") for _ in range(rng.choice([0, 1, 2]))]
+        post = [M("null") for _ in range(rng.choice([0, 1, 2]))]
+        after = [M("null") for _ in range(rng.choice([1, 2, 3]))]
+        return seq({"k": "try", "body": seq(*(pre + [x] + post)), "handler": seq(M("null")), "fin": None}, *(after + body + unst)), need
+    return seq(*(body + unst)), {}
 
 
 def small_plan(rng):
@@ -420,12 +435,18 @@ class ReplayGen:
     """Alternates (a) sweeps: one plan, one interruption (pause / suspension / deferred pause) at EVERY arrival
     index -- one scenario per index -- and (b) single scenarios with several interruptions."""
 
-    def __init__(self, clear_p=0.12, kinds=("pause", "suspend", "defer"), sweep_kinds=("pause", "suspend")):
+    def __init__(self, clear_p=0.12, kinds=("pause", "suspend", "defer"), sweep_kinds=("pause", "suspend"), sweep_cap=10):
         self.queue = []
-        self.clear_p, self.kinds, self.sweep_kinds = clear_p, kinds, sweep_kinds
+        self.clear_p, self.kinds, self.sweep_kinds, self.sweep_cap = clear_p, kinds, sweep_kinds, sweep_cap
+        self.early = False
 
     def base(self, rng):
-        sc = {"record_interruptions": rng.random() < 0.4, "devices": replay_devices(rng), "plan": replay_plan(rng, self.clear_p), "script": {}, "decisions": [rng.choice(["resume"] * 8 + ["abort", "stop", "halt"]) for _ in range(8)], "max_arrivals": 300}
+        plan, need = replay_plan(rng, self.clear_p)
+        devs = replay_devices(rng)
+        self.early = bool(need.pop("_early", False))
+        for d, modes in need.items():
+            devs[d]["modes"].update(modes)
+        sc = {"record_interruptions": rng.random() < 0.4, "devices": devs, "plan": plan, "script": {}, "decisions": [rng.choice(["resume"] * 8 + ["abort", "stop", "halt"]) for _ in range(8)], "max_arrivals": 300}
         o = E.run_scenario(E.number(copy.deepcopy(sc)))
         return sc, len(o["arrivals"])
 
@@ -436,8 +457,10 @@ class ReplayGen:
         if rng.random() < 0.5:
             kind = rng.choice(self.sweep_kinds)
             idxs = list(range(n))
-            if n > 40:
-                idxs = sorted(rng.sample(idxs, 40))
+            if n > self.sweep_cap:
+                # a window of consecutive arrival indices (plus a few scattered ones)
+                a0 = 0 if self.early else rng.randrange(0, n - self.sweep_cap + 1)
+                idxs = sorted(set(range(a0, a0 + self.sweep_cap - 2)) | set(rng.sample(idxs, 2)))
             out = []
             for at in idxs:
                 s2 = copy.deepcopy(sc)
@@ -448,7 +471,8 @@ class ReplayGen:
             return self.queue.pop()
         k = rng.choice([1, 2, 2, 3, 4])
         for f in range(k):
-            interruption(rng, rng.randrange(0, n + 3), f, sc["script"], self.kinds)
+            at = rng.randrange(0, min(n, 9)) if (self.early and f == 0) else rng.randrange(0, n + 3)
+            interruption(rng, at, f, sc["script"], self.kinds)
         if rng.random() < 0.15:
             sc["script"].setdefault(str(rng.randrange(0, n + 1)), []).append({"a": rng.choice(["abort", "stop", "halt"])})
         return E.number(sc)
